@@ -193,6 +193,28 @@ CLAIMED = {
               "Wall-clock fields (HTTP Date, SMB FILETIME) are inputs of the model (clock record) and masked in comparisons. "
               "Later TCP segments of a flow are covered through the per-flow parser state by C08/C11, not here."),
         technique="Coq factorisation theorem (context-free core + explicit rendering) + metamorphic model/implementation correspondence"),
+    "C20": dict(
+        text=("Coq theorems over the model of reply(), which returns the event list handed to the loggers: for every "
+              "configuration, table and frame, the events satisfy the executable specification ok_C20 -- one recv and later "
+              "one terminal event (send/drop) per layer reached, nested from Ethernet inwards, where the layers reached are "
+              "computed independently from the frame (authorised MAC, EtherType, minimum header sizes, IP layer accepting "
+              "the packet); the Ethernet terminal is 'send' iff a frame is emitted and all layers log the same fate; every "
+              "printed MAC / IP / port / EtherType / next protocol / type / code / flags / seq / ack is the frame's (for "
+              "'send' events the emitted reply's, read back by the strict reply decoders; the local port is the reply's "
+              "source port). Proved through an event-carrying factorisation of reply() over the stack's view. The abstract "
+              "console / logfmt renderers (Log.v) are proved to emit exactly one newline, at the end of each line, for every "
+              "event. Tied to /repo by running the REAL loggers: every line between two frame markers is parsed strictly "
+              "(column count / key order), compared with the model's events, judged by the extracted monitor, and "
+              "re-rendered byte-for-byte by the extracted renderers."),
+        design="DESIGN.md section 5, C20",
+        note=("Trusted: Coq kernel/vm_compute, extraction + OCaml driver, harness (strict line parsers with a self-test on "
+              "damaged lines; the monitor is mutation-tested on corrupted logs), driver frame markers; correspondence is "
+              "testing (one script per drop reason, both formats, four configurations, sweeps of all EtherType names, 256 "
+              "protocols, 256 ICMP types, 512 TCP flag words, every truncation length). Rust's Display/Debug of MacAddr, "
+              "IpAddr, integers and pnet's name tables are modelled in Log.v/Text.v (validated by the byte-for-byte "
+              "re-rendering, not proved). Values without a pnet name print as 'unknown' and are compared as one class. "
+              "Frames on which reply() panics are out of scope (C01). Timestamps are not part of the property."),
+        technique="Coq theorem via event-carrying factorisation + rendering lemma + real-logger correspondence with strict parsers"),
 }
 
 ALL = ["C%02d" % i for i in range(1, 21)]
